@@ -331,4 +331,41 @@ Definition spec_file (root_pats : list string) (sg : cmdsig) (configured : optio
 Definition spec_result (root_pats : list string) (sg : cmdsig) (configured : option (list string)) (files : list sfile) : list (list nat) :=
   map (spec_file root_pats sg configured) files.
 
+(* ---------- a cross-file rule: duplicate code (dry) ----------
+   A file takes part when it passes the two orchestrator filters; a file of template group (= language here: the harness renders one
+   text per language) is reported when at least two participating files share its text; the linter's own ignore list then filters
+   the VIOLATIONS by substring of str(path) (ViolationGenerator._is_ignored).  The same holds for the --parallel evidence pass. *)
+Definition lang_eqb (a b : lang) : bool :=
+  match a, b with LPy, LPy | LTs, LTs | LRs, LRs | LOther, LOther => true | _, _ => false end.
+
+Definition participates (q : quirks) (e : env) (f : file) : bool :=
+  let g := f_given f in
+  let rel := true_rel e g in
+  negb (hard_excluded (if q_excl_all_parts q && scope_given hard_exclusion_scope then all_parts g else rel) (name_of (g_parts g)))
+  && negb (orch_ignored q e g rel).
+
+Definition dry_ignored (q : quirks) (e : env) (pats : list string) (f : file) : bool :=
+  let g := f_given f in
+  let rel := true_rel e g in
+  if q_linter_ignore_full_path q then linter_ignored ISubstr pats (pstr g) (pstr g) (g_parts g)
+  else linter_ignored ISubstr pats (rooted rel) (unrooted rel) rel.
+
+Definition partners (q : quirks) (e : env) (files : list file) (l : lang) : nat :=
+  List.length (filter (fun f' => participates q e f' && lang_eqb (f_lang f') l) files).
+
+Definition dry_result (q : quirks) (e : env) (sg : cmdsig) (configured : option (list string)) (files : list file) : list (list nat) :=
+  map (fun f => if participates q e f && (2 <=? partners q e files (f_lang f)) && negb (dry_ignored q e (ignore_pats sg configured) f)
+                then f_raw f else []) files.
+
+Definition s_participates (root_pats : list string) (f : sfile) : bool :=
+  negb (hard_excluded (s_rel f) (name_of (s_rel f))) && negb (repo_ignored root_pats (unrooted (s_rel f)) (s_rel f)).
+
+Definition s_partners (root_pats : list string) (files : list sfile) (l : lang) : nat :=
+  List.length (filter (fun f' => s_participates root_pats f' && lang_eqb (s_lang f') l) files).
+
+Definition dry_spec (root_pats : list string) (sg : cmdsig) (configured : option (list string)) (files : list sfile) : list (list nat) :=
+  map (fun f => if s_participates root_pats f && (2 <=? s_partners root_pats files (s_lang f))
+                   && negb (linter_ignored ISubstr (ignore_pats sg configured) (rooted (s_rel f)) (unrooted (s_rel f)) (s_rel f))
+                then s_raw f else []) files.
+
 Definition find_sig (name : string) : option cmdsig := find (fun s => String.eqb (cs_name s) name) command_sigs.
